@@ -90,7 +90,7 @@ def run(run):
     from kaira.channels import BinaryErasureChannel, BinarySymmetricChannel, BinaryZChannel
     N = 1000000
     probs = [0, 1, 10, 100, 300, 500, 900, 999, 1000]
-    shapes = [(N,), (1000, 1000), (10, 10, 100, 100), (1, N)]
+    shapes = [(N,), (1000, 1000), (10, 10, 100, 100), (1, N), (N // 2, 2), (N, 1)]      # including narrow rows: a row may happen to hold no -1 at all
     evs, meta = [], []
     tid = 0
     for ch_name, cls in (("bsc", BinarySymmetricChannel), ("z", BinaryZChannel), ("bec", BinaryErasureChannel)):
